@@ -1003,7 +1003,32 @@ def _scale_euc_net(n, directed):
     return viol, ev, (n, directed)
 
 
+def _raise_key(ex):
+    """<module>.<function> of the innermost pyunicorn frame of a library
+    exception (legal large inputs must not raise)."""
+    import traceback
+    name = "pyunicorn"
+    for fr in traceback.extract_tb(ex.__traceback__):
+        if "pyunicorn" in fr.filename:
+            name = "%s.%s" % (fr.filename.rsplit("/", 1)[-1].split(".")[0],
+                              fr.name)
+    return "%s:raises:%s" % (name, LG)
+
+
 def fam_scale(case):
+    try:
+        return _fam_scale(case)
+    except Exception as ex:      # noqa  (harness bugs would show the same
+        # way; the key names the library frame, the message the exception)
+        if "pyunicorn" not in "".join(
+                f.filename for f in __import__("traceback").extract_tb(
+                    ex.__traceback__)[1:]):
+            raise
+        return {"viol": [V(_raise_key(ex), "%s: %r" % (case, ex), repr(ex),
+                           "a value")], "evals": 1, "sig": "raises"}
+
+
+def _fam_scale(case):
     kind = case[0]
     if kind == "geo_dist":
         viol, ev, sig = _scale_geo_dist(case[1], case[2])
